@@ -520,6 +520,13 @@ class Stmts:
                 h.env[name] = self.havoc_value(h.env[name], h, name)
         wr = self.write_set(s.body + ([ast.Expr(s.test)] if kind == "while" else []))
         h.havoc(sorted(wr[0]))
+        if getattr(spec, "loop_alloc", False):
+            # opt-in: objects allocated by earlier iterations stay allocated (the allocation map only grows), so an object created in this
+            # iteration is distinct from every object the invariant says is allocated
+            a0 = h.alloc()
+            h.havoc(["alloc"])
+            o_ = z3.Int("la!o")
+            h.assume(z3.ForAll([o_], z3.Implies(z3.Select(a0, o_), z3.Select(h.alloc(), o_))))
         for g in set(wr[1]) | set(getattr(spec, "loop_ghosts", ())):
             if g in h.ghost:
                 h.ghost[g] = h.fresh("G." + g, h.ghost[g].sort())
@@ -569,7 +576,12 @@ class Stmts:
                         if kind == "for":
                             lv2["k"] = k + 1
                         for cl in self._inv(spec, n, entry, o.st, dict(lv2, env=o.st.env)):
-                            self.oblige(o.st, "inv-pres", f"{n}:{cl.name}", cl.z, cl.tag)
+                            if cl.tag == "lemma":
+                                # auxiliary invariant clause: proved here, then available to the clauses that follow it
+                                self.oblige(o.st, "inv-pres", f"{n}:{cl.name}", cl.z, "aux")
+                                o.st.assume(cl.z)
+                            else:
+                                self.oblige(o.st, "inv-pres", f"{n}:{cl.name}", cl.z, cl.tag)
                         # path ends here (the invariant carries everything past the loop)
                     elif o.kind == "break":
                         outs.append(Out("normal", o.st))
